@@ -2,6 +2,7 @@ package hx
 
 import (
 	"context"
+	"encoding/json"
 	"fmt"
 	"sort"
 	"time"
@@ -41,7 +42,7 @@ func (c05) Cases(tier string) int {
 }
 
 func (c05) Rule() string {
-	return "L2.insert: 40 generated sequences of executorInsertObject calls per case (random targets and paths that mostly follow the target's structure, and executor-style message sets in parents-first and in deliberately wrong orders) compared with the Lean stitching model Ins.apply (value or index of the first rejected message); then fixed fan-out queries and generated queries over fixed and random federations, optionally with 1-5 injected failures (addressed by join id so that they do not depend on the schedule; several calls failing alike and others differently); each case is executed once unscheduled and then under 11 (quick) / 33 (thorough) controlled schedules: every service call and every executor goroutine about to publish its result parks at a gate (under the starve-collector policy also the collector, each time it has received a result) and a controller releases one parked goroutine at a time by policy {random, LIFO, FIFO, deepest path first, shallowest first, calls first, publishers first, starve the collector so that the result channel stays full, hold goroutines that are about to start a dependent step}; gates: service calls, the publish site, the spawn site and (when starving it) the collector; list fan-out up to 18; the response data and the multiset of error messages must be identical in all runs; the harness is built with -race and a reported race kills the worker (attributed to the case); non-trivial = at least 3 service calls; distinct = distinct (federation, query, faults)"
+	return "L2.insert: 40 generated sequences of executorInsertObject calls per case (random targets and paths that mostly follow the target's structure, and executor-style message sets in parents-first and in deliberately wrong orders) compared with the Lean stitching model Ins.apply (value or index of the first rejected message); then fixed fan-out queries and generated queries over fixed and random federations, optionally with 1-5 injected failures (addressed by join id so that they do not depend on the schedule; several calls failing alike and others differently); each case is executed once unscheduled and then under 11 (quick) / 33 (thorough) controlled schedules: every service call and every executor goroutine about to publish its result parks at a gate (under the starve-collector policy also the collector, each time it has received a result) and a controller releases one parked goroutine at a time by policy {random, LIFO, FIFO, deepest path first, shallowest first, calls first, publishers first, starve the collector so that the result channel stays full, hold goroutines that are about to start a dependent step}; gates: service calls, the publish site, the spawn site and (when starving it) the collector; list fan-out up to 18; the response data and the multiset of error messages must be identical in all runs, and the error messages of the same request sent through the HTTP handler must be that multiset; the harness is built with -race and a reported race kills the worker (attributed to the case); non-trivial = at least 3 service calls; distinct = distinct (federation, query, faults)"
 }
 
 func errMultiset(err error) []string {
@@ -55,6 +56,38 @@ func errMultiset(err error) []string {
 	}
 	sort.Strings(msgs)
 	return msgs
+}
+
+// HTTPErrorsFail sends the request of a faulty case through the HTTP handler: every error the execution reports must be
+// in the response with its message (whatever kind of Go error it is, whatever paths and messages the errors share)
+func HTTPErrorsFail(in FedInput, store Store, want []string) *Failure {
+	f, err := NewFed(in.Spec, store)
+	if err != nil {
+		return nil
+	}
+	InstallFaults(f, in.Faults, 0)
+	body, _ := json.Marshal(map[string]interface{}{"query": in.Query, "variables": in.Vars, "operationName": in.OpName})
+	rec, p := HTTPCase{Method: "POST", Target: "/graphql", ContentType: "application/json", Body: string(body)}.Serve(f.GW)
+	if p != nil {
+		return &Failure{Channel: "crash", Classifier: "unclassified", What: fmt.Sprint("the HTTP handler panicked: ", p), Input: in}
+	}
+	var parsed struct {
+		Errors []struct {
+			Message string `json:"message"`
+		} `json:"errors"`
+	}
+	json.Unmarshal(rec.Body.Bytes(), &parsed)
+	var msgs []string
+	for _, e := range parsed.Errors {
+		msgs = append(msgs, e.Message)
+	}
+	sort.Strings(msgs)
+	if fmt.Sprint(msgs) != fmt.Sprint(want) {
+		return &Failure{Channel: "L0.http-errors", Classifier: "unclassified",
+			What:  "the errors in the HTTP response are not the errors the execution reports: " + diffHint(fmt.Sprint(want), fmt.Sprint(msgs)),
+			Input: in, Expected: want, Observed: map[string]interface{}{"errors": msgs, "body": truncate(rec.Body.String(), 600)}}
+	}
+	return nil
 }
 
 func (c05) Run(c *Ctx, i int) CaseResult {
@@ -130,7 +163,7 @@ func (c05) Run(c *Ctx, i int) CaseResult {
 					continue
 				}
 				seenKey[k] = true
-				in.Faults = append(in.Faults, FaultSpec{Service: k.svc, MatchID: k.id, Kind: []string{"transport", "transport", "gqlerrors", "gqlerrors+data"}[r.Intn(4)]})
+				in.Faults = append(in.Faults, FaultSpec{Service: k.svc, MatchID: k.id, Kind: []string{"transport", "transport", "gqlerrors", "gqlerrors+data", "gqlerrors+null", "gqlerrors+null"}[r.Intn(6)]})
 			}
 			ref, err = RunFed(c, in, 8*time.Second)
 			if err != nil || ref.Out.Hung {
@@ -203,6 +236,12 @@ func (c05) Run(c *Ctx, i int) CaseResult {
 				What:  fmt.Sprintf("the response depends on the schedule (policy %s, %d releases): it differs from the unscheduled run", policy, len(sc.Trace)),
 				Input: in, Expected: map[string]interface{}{"data": ref.Out.Data, "errors": errMultiset(ref.Out.Err)},
 				Observed: map[string]interface{}{"data": out.Data, "errors": errMultiset(out.Err), "schedule": sc.Trace}})
+			return res
+		}
+	}
+	if len(in.Faults) > 0 {
+		if hf := HTTPErrorsFail(in, ref.Store, errMultiset(ref.Out.Err)); hf != nil {
+			res.Fails = append(res.Fails, *hf)
 			return res
 		}
 	}
